@@ -164,6 +164,19 @@ func main() {
 		repo = "/repo"
 	}
 
+	// ---- corpus (inputs that once failed)
+	for _, sc := range corpusScenarios() {
+		sr := evaluate(o, sc, rnd.Fork(sc.Name), res)
+		key, _ := json.Marshal(sc.Input)
+		res.Eval(string(key), nontrivialExec(sr.base))
+		res.Dist("stream=corpus")
+		if sr.base != nil {
+			for ci, c := range sr.base.Calls {
+				res.Dist(fmt.Sprintf("%s:call%d=%s%s", sc.Name, ci, c.Outcome, eventTypes(c.Events)))
+			}
+		}
+	}
+
 	// ---- suite stream
 	suite, notes := suiteScenarios(repo)
 	res.Notes = append(res.Notes, notes...)
